@@ -115,12 +115,19 @@ func c07Run(c *Ctx) {
 	if !c07Space(c, "plus-pairs", c07PlusTerms, c07PlusEntries, 2, K+1, false) {
 		return
 	}
+	if !c07Space(c, "same-license-twice", c07DupTerms, c07DupEntries, 2, K+1, false) {
+		return
+	}
 	c07Long(c)
 }
 
 // the same id with and without '+' side by side (a de-duplication that forgets the '+' merges them)
 var c07PlusTerms = []string{"Apache-2.0", "Apache-1.1", "MIT", "MIT+", "GPL-2.0-only+", "Apache-1.1+"}
 var c07PlusEntries = []string{"Apache-1.0", "Apache-1.0+", "Apache-1.1", "MIT", "MIT+", "Zlib", "GPL-2.0-only", "GPL-2.0-only+", "Apache-2.0"}
+
+// one license written twice in different ways (case, equivalent spelling) next to other entries
+var c07DupTerms = []string{"MIT", "Apache-2.0", "GPL-3.0-only"}
+var c07DupEntries = []string{"MIT", "mit", "Mit", "Apache-2.0", "apache-2.0", "GPL-2.0+", "GPL-2.0-or-later", "Zlib"}
 
 // padding entries: unrelated to every term used below (no family, not mentioned)
 var c07Padding = []string{"Beerware", "Unlicense", "WTFPL", "X11", "NTP", "Vim", "curl", "Ruby", "JSON", "Zed", "0BSD", "zlib-acknowledgement", "ISC", "Libpng"}
